@@ -331,8 +331,9 @@ BodyRawWrite(a) ==   \* db.execute / db.insert: start_transaction=True
     /\ LET L == Op(th[a]) w == 100 * a + L.nwl + 1 IN
        Upd(a, Call([L EXCEPT !.nwl = @ + 1, !.wr = @ + 1, !.unit = @ \cup {w}], "B", FrR("ES0", "write", w)))
     /\ UNCHANGED shared
-BodyFlush(a) == /\ Obs(a, "B") /\ More(a) /\ th[a].cache = "alive"
-                /\ Upd(a, Call(Op(th[a]), "B", Fr("FL0"))) /\ UNCHANGED shared
+BodyFlush(a) == /\ Obs(a, "B") /\ More(a)            \* flush(): for cache in _get_caches(): cache.flush()
+                /\ Upd(a, IF th[a].cache = "alive" THEN Call(Op(th[a]), "B", Fr("FL0")) ELSE Op(th[a]))
+                /\ UNCHANGED shared
 BodyCommit(a) == /\ Obs(a, "B") /\ More(a)
                  /\ Upd(a, Call(Op(th[a]), "B", Fr("CM0"))) /\ UNCHANGED shared
 BodyRollback(a) == /\ Obs(a, "B") /\ More(a)
